@@ -1,4 +1,5 @@
 import Votca.Lemmas.C11Merge
+import Votca.Lemmas.C11X
 /-! # C11 — option handling merges user input over defaults without loss or invention
 
 Theorems about the passes of `Votca/Model/C11.lean` (the model is executed against OptionsHandler::ProcessUserInput on every
@@ -425,5 +426,42 @@ example : (match resolveLinks demoPkgs 10 demoLinked with
     | some r => r.attr "help" == some "own" && r.attr "x" == some "1" &&
         r.children.map (fun c => (c.name, c.children.map (·.name))) == [("id", []), ("tol", []), ("sub", ["id"])]
     | none => false) = true := by decide +kernel
+
+/-! ## the XML text layer: what the writer escapes, a parser reads back as the original text
+
+The replacement tables are GENERATED from `XmlEscape` in property.cc (`Gen/XmlEscape.lean`); the writer model `C11X.printXML` built on them is
+compared character by character with the file the real writer produces on every run. -/
+
+open Votca.C11X in
+/-- **for every sound replacement table** (decidable test: every entry is the character itself — never for `&` and `<` — or the predefined
+    entity of that character, and `&` and `<` do have entries) **and every text**, of any length and with any characters: the escaped text is
+    well-formed character data and a parser reads it back as exactly the original text -/
+theorem xml_escape_sound (tab : List (Char × List Char)) (h : tableOK tab = true) (s : List Char) :
+    unescape (escapeWith tab s) = some s := unescape_escape_lem tab h s
+
+open Votca.C11X in
+/-- the tables the source contains NOW pass the test (re-decided on every run against the regenerated tables) -/
+theorem generated_tables_sound : tableOK Votca.Gen.XmlEscape.textTable = true ∧ attrOK Votca.Gen.XmlEscape.attrTable = true := by decide
+
+open Votca.C11X in
+/-- **C11/XML values**: every node value the writer puts between its tags is read back unchanged — `&`, `<`, `>`, quotes, entity-like
+    text such as `&amp;` itself, anything -/
+theorem xml_text_roundtrip (s : List Char) : unescape (escapeWith Votca.Gen.XmlEscape.textTable s) = some s :=
+  unescape_escape_lem _ generated_tables_sound.1 s
+
+open Votca.C11X in
+/-- **C11/XML attributes**: an attribute value written between double quotes ends at the writer's closing quote, not earlier, and is read
+    back unchanged, whatever follows the closing quote -/
+theorem xml_attr_roundtrip (v rest : List Char) :
+    attrValue (escapeWith Votca.Gen.XmlEscape.attrTable v ++ '"' :: rest) = some (v, rest) :=
+  attrValue_escape_lem _ generated_tables_sound.2 v rest
+
+open Votca.C11X in
+/-- the negative side (what the writer did before the repair 722b9a336): with an empty table a value holding `<` or a bare `&` is not
+    well-formed character data — the hypothesis `tableOK` is not idle -/
+theorem xml_no_escape_counterexample : unescape (escapeWith [] "a<b".toList) = none ∧ unescape (escapeWith [] "R&D".toList) = none := by decide
+
+open Votca.C11X in
+example : escapeWith Votca.Gen.XmlEscape.attrTable "a\"<&amp;>".toList = "a&quot;&lt;&amp;amp;&gt;".toList := by decide
 
 end Votca.C11
